@@ -239,9 +239,14 @@ def r18c(R):
         if name == 'multizone':
             ok = ok and 'enumerate(' in norm(loops[0].ast.iter)
         else:
-            its = sorted(norm(l.ast.iter) for l in loops)
-            ok = ok and its == ['range(0, light_matrix.height)',
-                                'range(0, light_matrix.width)']
+            mv = [norm(n.targets[0]) for n in walk_own(m.node)
+                  if isinstance(n, ast.Assign) and isinstance(n.value, ast.Call)
+                  and isinstance(n.value.func, ast.Attribute)
+                  and n.value.func.attr == 'get_matrix']
+            its = sorted(norm(l.ast.iter).replace(' ', '') for l in loops)
+            ok = ok and bool(mv) and its in (
+                ['range(0,%s.height)' % mv[0], 'range(0,%s.width)' % mv[0]],
+                ['range(%s.height)' % mv[0], 'range(%s.width)' % mv[0]])
         R.check(m, '%s: one %s per element' % (name, inner), ok,
                 'not every %s of the light is written to the script'
                 % ('zone' if name == 'multizone' else 'cell'))
@@ -447,14 +452,28 @@ def r19b(R):
     for n in walk_own(vp.node):
         if isinstance(n, ast.If) and any(
                 isinstance(x, ast.Subscript) and isinstance(x.ctx, ast.Store)
-                and norm(x.value) == 'named' for b in n.body for x in ast.walk(b)) \
-                and 'name' in norm(n.test) and cond is None \
-                and 'Register' not in norm(n.test) and 'reg ' not in norm(n.test):
+                for b in n.body for x in ast.walk(b)) \
+                and ('isdecimal' in norm(n.test) or 'len(' in norm(n.test)
+                     or ' is not None and ' in norm(n.test)) and cond is None:
             cond = n.test
     if cond is None:
         raise AnalysisError('VmIo._printf: named-field test not found')
-    t1 = _truth_table(comp, 'field[1]')
-    t2 = _truth_table(cond, 'name')
+    # names: the comprehension variable's [1] at compile time; at run time
+    # the local assigned from <loop variable>[1]
+    gen_var = None
+    for n in walk_own(pf.node):
+        if isinstance(n, ast.GeneratorExp) and n.generators[0].ifs:
+            gen_var = norm(n.generators[0].target)
+    run_var = None
+    for n in walk_own(vp.node):
+        if isinstance(n, ast.Assign) and isinstance(n.value, ast.Subscript) \
+                and A.try_fold(n.value.slice, vp) == 1 \
+                and isinstance(n.targets[0], ast.Name):
+            run_var = n.targets[0].id
+    if gen_var is None or run_var is None:
+        raise AnalysisError('printf: field-name variables not found')
+    t1 = _truth_table(comp, '%s[1]' % gen_var)
+    t2 = _truth_table(cond, run_var)
     bad = [k for k in t1 if isinstance(t1[k], str) or isinstance(t2[k], str)]
     ok = not bad
     if ok:
@@ -515,8 +534,15 @@ def r19d(R):
     for n in fmt:
         for c in n.calls():
             if isinstance(c.func, ast.Attribute) and c.func.attr == 'format':
+                # the dict of named values: the local that _printf fills by
+                # subscript stores
+                named_v = sorted(set(
+                    norm(x.value) for x in walk_own(vp.node)
+                    if isinstance(x, ast.Subscript) and isinstance(x.ctx, ast.Store)
+                    and isinstance(x.value, ast.Name)))
                 okargs = [norm(a) for a in c.args] == ['*self._unnamed'] and \
-                    [norm(k.value) for k in c.keywords if k.arg is None] == ['named']
+                    [norm(k.value) for k in c.keywords if k.arg is None] == named_v \
+                    and len(named_v) == 1
     R.check(vp, 'format(*self._unnamed, **named)', okargs,
             'positional values and named fields are not handed to str.format '
             'as positional / keyword arguments')
@@ -743,14 +769,20 @@ def r20e(R):
             'a repeated request queues the script again although it is '
             'reported as running')
     gsc = A.func(WEBAPP, 'WebApp.get_script_control')
-    asked = [norm(c.args[0]) for c in A.calls_in(gsc)
-             if 'JobControl.is_running' in A.callee_names(gsc, c) and c.args]
+    scope = [g for g in A.rs.reachable([gsc]) if g.cls is gsc.cls]
+
+    def attr_of(e):
+        # `<entry>.path` -> 'path' (the entry's local name does not matter)
+        return e.attr if isinstance(e, ast.Attribute) and \
+            isinstance(e.value, ast.Name) else norm(e)
+    asked = sorted(set(attr_of(c.args[0]) for g in scope for c in A.calls_in(g)
+                       if 'JobControl.is_running' in A.callee_names(g, c) and c.args))
     qs = A.func(WEBAPP, 'WebApp.queue_script')
-    queued = sorted(set(norm(c.args[1]) for c in A.calls_in(qs)
+    queued = sorted(set(attr_of(c.args[1]) for c in A.calls_in(qs)
                         if any(x in ('JobControl.add_job', 'JobControl.spawn_job')
                                for x in A.callee_names(qs, c)) and len(c.args) > 1))
-    R.check(gsc, 'running = is_running(%s); queued as %s' % (asked, queued),
-            asked == ['script_control.path'] and queued == ['script_control.path'],
+    R.check(gsc, 'running = is_running(<entry>.%s); queued as <entry>.%s' % (
+        asked, queued), asked == ['path'] and queued == ['path'],
             'the name asked of is_running differs from the name the job is '
             'queued under: a running script is never recognised')
     bg = [n for n in A.cfg(qs).nodes if n.kind == 'cond'
